@@ -72,16 +72,20 @@ def validCoins : Coins → Bool
 def removeZero (cs : Coins) : Coins := cs.filter fun c => c.2 != 0
 def consNZ (c : Coin) (r : Coins) : Coins := if c.2 == 0 then r else c :: r
 
+/-- `Coins.AddUnsafe`, the loop with the head `a :: ra` of the first set fixed; `recA` continues
+    with `ra` (written this way so that the recursion is structural and evaluates in the kernel). -/
+def addAux (a : Coin) (ra : Coins) (recA : Coins → Option Coins) : Coins → Option Coins
+  | [] => some (removeZero (a :: ra))
+  | b :: rb =>
+    if a.1 < b.1 then (recA (b :: rb)).map (consNZ a)
+    else if a.1 == b.1 then
+      if inI64 (a.2 + b.2) then (recA rb).map (consNZ (a.1, a.2 + b.2)) else none
+    else (addAux a ra recA rb).map (consNZ b)
+
 /-- `Coins.AddUnsafe`: merge of two denom-sorted sets; `none` = the `overflow.Add` panic. -/
 def addUnsafe : Coins → Coins → Option Coins
   | [], b => some (removeZero b)
-  | a :: ra, [] => some (removeZero (a :: ra))
-  | a :: ra, b :: rb =>
-    if a.1 < b.1 then (addUnsafe ra (b :: rb)).map (consNZ a)
-    else if a.1 == b.1 then
-      if inI64 (a.2 + b.2) then (addUnsafe ra rb).map (consNZ (a.1, a.2 + b.2)) else none
-    else (addUnsafe (a :: ra) rb).map (consNZ b)
-termination_by a b => a.length + b.length
+  | a :: ra, b => addAux a ra (addUnsafe ra) b
 
 /-- `Coins.Add`: `AddUnsafe`, then panic unless the result validates. -/
 def add (a b : Coins) : Option Coins :=
@@ -363,25 +367,42 @@ structure Entry where
   path : String
 deriving Repr
 
+/-- `strings.Cut` on a one-byte separator: before, after, found -/
+def cutAt (c : Char) : List Char → List Char × List Char × Bool
+  | [] => ([], [], false)
+  | x :: r => if x == c then ([], r, true) else
+    match cutAt c r with
+    | (a, b, f) => (x :: a, b, f)
+
+def strCut (s : String) (c : Char) : String × String × Bool :=
+  match cutAt c s.toList with
+  | (a, b, f) => (String.ofList a, String.ofList b, f)
+
+/-- `strings.HasSuffix(s, "/")` -/
+def hasSuffixSlash (s : String) : Bool := s.toList.getLast? == some '/'
+
+/-- `strings.HasPrefix(s, pre)` -/
+def hasPrefix (s pre : String) : Bool := pre.toList.isPrefixOf s.toList
+
 /-- `parseAllowPathsEntry` (`none` = error) -/
 def parseEntry (s : String) : Option Entry :=
   if s == "" then none
   else if s == allowPathsWildcard then some ⟨true, "", "", ""⟩
   else
-    let pieces := s.splitOn ":"
-    let routeType := pieces.headD ""
-    let hasPath := decide (pieces.length > 1)
-    let path := ":".intercalate (pieces.drop 1)
-    if routeType == allowPathsWildcard then none
-    else if !validSessionRouteTypes.contains routeType then none
-    else
-      let rt := routeType.splitOn "/"
-      let e : Entry := ⟨false, rt.headD "", "/".intercalate (rt.drop 1), ""⟩
-      if !hasPath then some e
-      else if routeType != pathBearingRouteType then none
-      else if path == "" then none
-      else if path.endsWith "/" then none
-      else some { e with path := path }
+    match strCut s ':' with
+    | (routeType, path, hasPath) =>
+      if routeType == allowPathsWildcard then none
+      else if !validSessionRouteTypes.contains routeType then none
+      else
+        -- slash := strings.IndexByte(routeType, '/'); Route = routeType[:slash], Type = routeType[slash+1:]
+        match strCut routeType '/' with
+        | (route, type, _) =>
+          let e : Entry := ⟨false, route, type, ""⟩
+          if !hasPath then some e
+          else if routeType != pathBearingRouteType then none
+          else if path == "" then none
+          else if hasSuffixSlash path then none
+          else some { e with path := path }
 
 /-- `parseAllowPaths` -/
 def parsePaths (ps : List String) : Option (List Entry) :=
@@ -394,7 +415,7 @@ def entryMatches (e : Entry) (m : Msg) : Bool :=
   else if e.path == "" then true
   else match m.pkgPath with
     | none => false
-    | some p => p == e.path || p.startsWith (e.path ++ "/")
+    | some p => p == e.path || hasPrefix p (e.path ++ "/")
 
 /-- `sessionAlwaysDenied` -/
 def alwaysDenied (m : Msg) : Bool := m.route == "auth" || (m.route == "vm" && m.type == "add_package")
@@ -422,7 +443,7 @@ def createSession (w : World) (src key : Nat) (expires period : Int) (limit : Co
   else if ((w.sess.filter fun p => p.1.1 == src).length : Int) ≥ maxSessionsPerAccount then .error .sessionLimit
   else if period > maxSpendPeriod then .error .unauthorized
   else if (paths.length : Int) > maxAllowPathsPerSession then .error .unauthorized
-  else if paths.any (fun p => p == "" || p.endsWith "/") then .error .unauthorized
+  else if paths.any (fun p => p == "" || hasSuffixSlash p) then .error .unauthorized
   else if (parsePaths paths).isNone then .error .unauthorized
   else .ok { w with sess := setSess w.sess (src, key) (newSession expires period limit paths w.now) }
 
